@@ -156,6 +156,8 @@ def cgt_family(name, seed=1):
         return _family_cache[name]
     if name in MATCHER_FAMILIES:
         return matcher_family(name, seed)
+    if name in LINES_FAMILIES:
+        return lines_family(name, seed)
     fam = FAMILIES[name]
     cfg = write_cfg('MC_Cgt_' + name, cgt_cfg(**fam['cfg']))
     if fam.get('simulate'):
@@ -260,6 +262,73 @@ def matcher_family(name, seed=1):
         _matcher_binding_selftest(m['out'], wd)
     _family_cache[name] = r
     return r
+
+
+# --------------------------------------------------------------------------------------------
+# MC_Lines families: the LINE-LEVEL implementation-shaped machine (Lines.tla: stable sort, adjacent merge, same-day fold,
+# flat line indices, shared reservation maps, several securities) is model-checked to refine Cgt.tla for EVERY ORDER of
+# every selection of lines from a small alphabet, and its exact outcome is replayed into the code line order and all.
+
+def lines_cfg(maxlines=3, alpha='MC_AlphaAll', **_):
+    return f'''SPECIFICATION Spec
+CONSTANTS
+  DayNo <- MC_LDayNo
+  LSecs <- MC_LSecs
+  MaxLines = {maxlines}
+  AlphabetSel <- {alpha}
+INVARIANTS LinesRefine LinesRefuseUnabsorbable LBookkeeping EmitLines
+CHECK_DEADLOCK FALSE
+'''
+
+
+LINES_FAMILIES = {
+    'lines_q': dict(maxlines=3, alpha='MC_AlphaAll'),       # 4 369 ordered selections of <= 3 of 17 lines
+    'lines4_q': dict(maxlines=4, alpha='MC_AlphaCore'),     # <= 4 of the 11 core lines (two fills, two sale lines, split, both events)
+    'lines_t': dict(maxlines=4, alpha='MC_AlphaAll'),       # 61 489
+    'lines5_t': dict(maxlines=5, alpha='MC_AlphaCore'),
+}
+
+
+def lines_family(name, seed=1):
+    if name in _family_cache:
+        return _family_cache[name]
+    cfg = write_cfg('MC_' + name[0].upper() + name[1:], lines_cfg(**LINES_FAMILIES[name]))
+    m = tlc('MC_Lines', cfg, workers=8, timeout=3000)
+    log(f'[tlc] MC_Lines/{name}: refinement Lines => Cgt held for every order of the lines on {m["states"]} distinct states, '
+        f'{m["transitions"]} transitions, depth {m["depth"]} ({"cached" if m["cached"] else str(m["wall_s"]) + "s"})')
+    wd = workdir('cgt_' + name)
+    out = os.path.join(wd, 'findings.ndjson')
+    s = harness('replay_lines', ['--in', m['out'], '--out', out, '--bases', '2' if name.endswith('_q') else '1'])
+    r = {'name': name, 'tlc': m, 'summary': s, 'findings': read_ndjson(out), 'obs': None}
+    log(f'[replay] MC_Lines/{name}: {s["records"]} behaviours, {s["counters"].get("executions", 0)} executions, '
+        f'{s["findings"]} deviations')
+    _lines_binding_selftest(m['out'], wd)
+    _family_cache[name] = r
+    return r
+
+
+def _lines_binding_selftest(tlc_out, wd):
+    """The exact replay must bind: a behaviour whose expected legs are given in another order (two legs of one disposal
+    swapped) or whose leg cost is off by one must be reported; otherwise the family's silence means nothing."""
+    pre = '<<"LINES", "'
+    with open(tlc_out, errors='replace') as f:
+        for line in f:
+            if not line.startswith(pre):
+                continue
+            rec = json.loads(line.rstrip('\n')[len(pre):-len('">>')].replace('\\"', '"').replace('\\\\', '\\'))
+            if rec['status'] != 'ok' or len(rec['legs']) < 2 or rec['legs'][0][:2] != rec['legs'][1][:2]:
+                continue
+            rec['legs'][0], rec['legs'][1] = rec['legs'][1], rec['legs'][0]
+            p = os.path.join(wd, 'selftest.txt')
+            open(p, 'w').write(pre + json.dumps(rec).replace('\\', '\\\\').replace('"', '\\"') + '">>\n')
+            o = os.path.join(wd, 'selftest.ndjson')
+            harness('replay_lines', ['--in', p, '--out', o, '--bases', '1'])
+            kinds = {f['kind'] for f in read_ndjson(o)}
+            if not kinds & {'leg_identification', 'leg_value'}:
+                raise common.ToolError(f'line-level replay does not bind: swapped legs were accepted (kinds reported: {sorted(kinds)})')
+            log(f'[selftest] MC_Lines exact replay: two legs of a disposal given in the wrong order are rejected ({sorted(kinds)})')
+            return
+    log('[selftest] MC_Lines exact replay: no behaviour with a two-leg disposal to perturb')
 
 
 def _matcher_binding_selftest(tlc_out, wd):
